@@ -50,6 +50,22 @@ CHECKS = {
             "plus float spellings; the model invariant ties the character-level decoder to the denotation, and the implementation "
             "must produce the denoted code points / octets / number (or an error for out-of-range integers).",
             "Trusted: TLC, BigInt. Floats are compared only when the spelled decimal is exactly representable.", "5/C07"),
+    "C09": ("TLA+ reference evaluator CelEval (index, lookup, in, size, concatenation, map construction, has, string functions, the "
+            "five macros) checked by TLC for the laws of the statement; every template program replayed under both runners; random "
+            "programs validated by TLC trace spec Trace_Eval",
+            "TLC instantiates program templates over value pools (every boundary index from MIN to MAX, present / missing / wrong-type "
+            "keys, duplicate keys, non-BMP strings, failing predicates, nested macros), checks map-keeps-size, filter-is-subsequence, "
+            "exists_one-counts, in-iff-exists, concat-prefix and bad-index-is-error on the specification, and the implementation must "
+            "return the specified value or error for each program.",
+            "Trusted: TLC, BigInt, the AST renderer. Regular expressions (matches) are not modelled; heterogeneous containers are "
+            "indefinite.", "5/C09"),
+    "C13": ("TLA+ reference evaluator CelEval with type tags (TypeName(Eval(e))) checked by TLC; every typed root expression replayed: "
+            "value, Python class of the result (isinstance of the celtypes class) and the twelve answers of type(e) == T, both runners",
+            "TLC instantiates every operator, built-in predicate, macro and literal with operands of each of the twelve CEL types, "
+            "each also nested under a conditional and a list index; arithmetic-keeps-type and predicates-are-bool are model "
+            "invariants; the implementation must hand back an instance of the celtypes class of the specified type and answer "
+            "type(e) == T with true exactly for the specified T.",
+            "Trusted: TLC, the projection of Python results. Conversion functions are covered under C10.", "5/C13"),
 }
 NOT_YET = "check not built yet in this phase (planned per DESIGN.md section 5)"
 
